@@ -77,6 +77,7 @@ type c20Opts struct {
 	DotPaths  bool   // artifacts are passed as single files spelled ./proj/<file> and the strip prefix as ./proj/
 	Rewrite   bool   // every step's command also rewrites proj/version.txt in place: other content, same size, modification time restored
 	Sublayout bool   // the first step is delegated: its functionary signs a one-step sublayout (with `in-toto sign`), the inner step is carried out with `run -d <meta>/<step>.<keyid8>`
+	KeyLinks  bool   // every key and certificate file is a symbolic link into a store directory (as in mounted secret volumes)
 	LinkStore bool   // the link files are kept in a store directory; the metadata directory holds symbolic links to them
 	Resign    bool   // the layout file is first signed as an earlier revision, then revised in place (stale signatures stay) and signed again with the same keys
 }
@@ -186,6 +187,7 @@ func runC20(c *core.Ctx) {
 		o.Rewrite = !o.CommaName && !o.DotPaths && r.Intn(3) == 0
 		o.LinkStore = !o.NoLinkDir && i%4 == 1
 		o.Sublayout = !o.Cert && !o.NoLinkDir && !o.Record[0] && i%5 == 3
+		o.KeyLinks = i%3 == 2
 		metaName := "meta"
 		if o.OddNames {
 			metaName = "meta[1]"
@@ -221,6 +223,15 @@ func runC20(c *core.Ctx) {
 			priv, pub := filepath.Join(w.keys, name), filepath.Join(w.keys, name+".pub")
 			os.WriteFile(priv, []byte(kp.PrivPEM), 0600)
 			os.WriteFile(pub, []byte(kp.PubPEM), 0644)
+			if o.KeyLinks {
+				store := filepath.Join(w.keys, "..data")
+				mkdirs(store)
+				for _, f := range []string{priv, pub} {
+					if os.Rename(f, filepath.Join(store, filepath.Base(f))) == nil {
+						os.Symlink(filepath.Join("..data", filepath.Base(f)), f)
+					}
+				}
+			}
 			return priv, pub
 		}
 		owners := []gen.KeyPair{pool[(i)%len(pool)], fast[(i+5)%len(fast)]}[:o.Signers]
@@ -823,7 +834,7 @@ func init() {
 	core.Register(&core.Property{
 		ID:    "C20",
 		Level: "exploration",
-		Rule: "seeded supply chains of 1-3 steps carried out ONLY through the built `in-toto` binary: per step `run` or `record start` / (changes by hand) / `record stop`, options drawn from {`verify` without -d from the directory that holds the links, certificate chain over two intermediates passed as two -i files, link files kept in a store directory with symbolic links in the metadata directory, first step delegated to a one-step sublayout (signed with `in-toto sign`, inner step carried out with `run -d <links>/<step>.<keyid8>`), product named with a comma and passed to `run -p` by its own path, artifacts passed as single files spelled ./proj/<file> with the strip prefix spelled ./proj/, a file that every step's command rewrites in place (other content, same size, modification time restored) and that is material and product of each step, step names and metadata directory with brackets, product names with non-ASCII characters, layout file signed as an earlier revision / revised in place / signed again with the same keys, --use-dsse, -c certificate with the CA in the layout (the certificate issued directly or by an intermediate CA that only `verify -i` supplies), -l strip prefix, -d metadata directory, --run-dir, -x, -e exclude}, step commands that are quiet / print several lines / write to stderr only; in a third of the chains the last step is carried out twice (a noisy first attempt, then the real one, both writing the same link path); layout written by the harness and signed with `in-toto sign` by 1-2 keys; link names checked against the verifier's naming; then `verify` on the honest chain and after each of 15 single tamperings (product byte, extra file, link content, link signature, link missing, link renamed, layout content - verified with all, only the first and only the last signer key -, layout signed by an outsider, wrong -k, extra -k of a non-signer, an unloadable / missing key file listed before a good one, expired layout), each time compared with library verification of a byte-identical copy; `sign --verify` with signer / outsider keys, `key id` on a key and on a non-key, `match-products` on untouched and locally changed products compared with InTotoMatchProducts. " +
+		Rule: "seeded supply chains of 1-3 steps carried out ONLY through the built `in-toto` binary: per step `run` or `record start` / (changes by hand) / `record stop`, options drawn from {`verify` without -d from the directory that holds the links, certificate chain over two intermediates passed as two -i files, link files kept in a store directory with symbolic links in the metadata directory, key files that are symbolic links into a store directory, first step delegated to a one-step sublayout (signed with `in-toto sign`, inner step carried out with `run -d <links>/<step>.<keyid8>`), product named with a comma and passed to `run -p` by its own path, artifacts passed as single files spelled ./proj/<file> with the strip prefix spelled ./proj/, a file that every step's command rewrites in place (other content, same size, modification time restored) and that is material and product of each step, step names and metadata directory with brackets, product names with non-ASCII characters, layout file signed as an earlier revision / revised in place / signed again with the same keys, --use-dsse, -c certificate with the CA in the layout (the certificate issued directly or by an intermediate CA that only `verify -i` supplies), -l strip prefix, -d metadata directory, --run-dir, -x, -e exclude}, step commands that are quiet / print several lines / write to stderr only; in a third of the chains the last step is carried out twice (a noisy first attempt, then the real one, both writing the same link path); layout written by the harness and signed with `in-toto sign` by 1-2 keys; link names checked against the verifier's naming; then `verify` on the honest chain and after each of 15 single tamperings (product byte, extra file, link content, link signature, link missing, link renamed, layout content - verified with all, only the first and only the last signer key -, layout signed by an outsider, wrong -k, extra -k of a non-signer, an unloadable / missing key file listed before a good one, expired layout), each time compared with library verification of a byte-identical copy; `sign --verify` with signer / outsider keys, `key id` on a key and on a non-key, `match-products` on untouched and locally changed products compared with InTotoMatchProducts. " +
 			"non-trivial = the chain reached `verify`; distinct = (option set, tampering)",
 		Assumptions: []string{"the inspection of the generated layout runs in the directory `verify` is started in (a separate final-product directory)", "open known finding F6 also shows here: --use-dsse together with -c"},
 		Workers:     func(string) int { return 16 },
